@@ -5,8 +5,15 @@ PROP = {
     "glue": "GH", "chk": "chk02", "explain": "explainH",
     "gotags": ["shim_memory", "shim_redis", "shim_timecache"],
     "n": {"quick": 120, "thorough": 3000},
-    "rule": HIST_RULE + " Emphasis C02: announce/scrape/store-op mix; every scrape, response count, delete result and membership dump is compared.",
+    "rule": HIST_RULE + " Emphasis C02: announce/AnnouncePeers heavy; numwant in {0,1,2,3,4,5,8,50,2^32-1}; announcer absent / seeder / leecher / both.",
     "tags": HIST_TAGS, "reasons": HIST_REASONS, "assumptions": HIST_ASSUMPTIONS,
     "trivial_tags": [], "min_tags": 4,
-    "explanation": "placeholder",
+    "explanation": "Coq theorems: the checker ok_selection applied to the implementation's peer lists is proved equivalent (sound and complete) to the declarative selection_spec (at most numwant, all current members, as many as the swarm offers, seeders before leechers, never the announcer's own leecher entry, a seeder gets only leechers), and the code's selection for ANY map iteration order satisfies it (select_ref_ok), with corollaries per clause. Tied to both stores' AnnouncePeers and the response hook by generated histories; every announce response and AnnouncePeers result is judged by the proved checker against the model's swarm state.",
+}
+
+CLAIM = {
+    "text": "Coq theorems: the checker ok_selection applied to the implementation's peer lists is proved equivalent (sound and complete) to the declarative selection_spec (at most numwant, all current members, as many as the swarm offers, seeders before leechers, never the announcer's own leecher entry, a seeder gets only leechers), and the code's selection for ANY map iteration order satisfies it (select_ref_ok), with corollaries per clause. Tied to both stores' AnnouncePeers and the response hook by generated histories; every announce response and AnnouncePeers result is judged by the proved checker against the model's swarm state.",
+    "design_ref": "DESIGN.md section 8, C02",
+    "note": 'Trusted: as C01. numwant default/cap is part of request parsing (C06/C07/C20); here numwant is the sanitised value handed to the logic.',
+    "technique": "Coq refinement/invariant proofs over executable Gallina store models + differential history correspondence (vm_compute)",
 }
